@@ -291,7 +291,13 @@ class UnionMarshaller(AbstractMarshaller[UnionT], tp.Generic[UnionT]):
 
         for routine in self.ordered_routines:
             with contextlib.suppress(
-                ValueError, TypeError, SyntaxError, AttributeError
+                ValueError,
+                TypeError,
+                SyntaxError,
+                AttributeError,
+                ArithmeticError,
+                OSError,
+                re.error,
             ):
                 unmarshalled = routine(val)
                 return unmarshalled
